@@ -80,8 +80,20 @@ pub const STR_FNS: [&str; 9] = ["upper", "lower", "length", "ltrim", "rtrim", "a
 pub enum From {
     Table(usize),
     Join(&'static str, Box<From>, Box<From>, Option<E>),
-    /// derived table `(SELECT items FROM inner [WHERE w]) AS r`; its columns are c0, c1, …
-    Derived(Box<From>, Option<E>, Vec<E>),
+    /// derived table `(SELECT items FROM inner [WHERE w]) AS r`; its columns are c0, c1, …; written in place, or as a
+    /// common table expression `WITH w AS (SELECT …) … FROM w AS r`
+    Derived(Box<From>, Option<E>, Vec<E>, Cte),
+}
+
+/// how a derived table is written
+#[derive(Clone, Copy, Debug, PartialEq)]
+pub enum Cte {
+    /// in place
+    No,
+    /// WITH w<i> AS (…)
+    Named,
+    /// WITH t<j> AS (…): the name of a table of the database (which the statement does not use otherwise)
+    Shadow(usize),
 }
 
 #[derive(Clone, Debug)]
@@ -109,6 +121,8 @@ pub struct Select {
 pub enum Stmt {
     Select(Select),
     Insert(usize, Vec<Vec<E>>),
+    /// INSERT with an optional column list and rows of any width (`insx`): also the ill-formed ones
+    InsertX(usize, Option<Vec<usize>>, Vec<Vec<E>>),
     Update(usize, Vec<(usize, E)>, Option<E>),
     Delete(usize, Option<E>),
 }
@@ -331,8 +345,12 @@ fn show_from(f: &From, out: &mut Vec<String>) {
                 }
             }
         }
-        From::Derived(inner, w, items) => {
-            out.push("d".into());
+        From::Derived(inner, w, items, cte) => {
+            out.push(match cte {
+                Cte::No => "d".into(),
+                Cte::Named => "cte".into(),
+                Cte::Shadow(j) => format!("ctes{}", j),
+            });
             show_from(inner, out);
             show_where(w, out);
             out.push(format!("p{}", items.len()));
@@ -402,6 +420,26 @@ pub fn show_stmt(s: &Stmt) -> String {
             out.push("ins".into());
             out.push(format!("t{}", t));
             out.push(format!("r{}", rows.len()));
+            for r in rows {
+                for e in r {
+                    show_expr(e, &mut out)
+                }
+            }
+        }
+        Stmt::InsertX(t, cols, rows) => {
+            out.push("insx".into());
+            out.push(format!("t{}", t));
+            match cols {
+                None => out.push("nolist".into()),
+                Some(cs) => {
+                    out.push(format!("l{}", cs.len()));
+                    for c in cs {
+                        out.push(format!("c{}", c));
+                    }
+                }
+            }
+            out.push(format!("r{}", rows.len()));
+            out.push(format!("v{}", rows.first().map(|r| r.len()).unwrap_or(0)));
             for r in rows {
                 for e in r {
                     show_expr(e, &mut out)
@@ -573,7 +611,14 @@ fn p_from(t: &mut Toks) -> Option<From> {
             _ => return None,
         };
         Some(From::Join(k, Box::new(l), Box::new(r), on))
-    } else if w == "d" {
+    } else if w == "d" || w == "cte" || num_after("ctes", w).is_some() {
+        let cte = if w == "d" {
+            Cte::No
+        } else if w == "cte" {
+            Cte::Named
+        } else {
+            Cte::Shadow(num_after("ctes", w)?)
+        };
         let inner = p_from(t)?;
         let wh = p_where(t)?;
         let n = num_after("p", t.next()?)?;
@@ -581,7 +626,7 @@ fn p_from(t: &mut Toks) -> Option<From> {
         for _ in 0..n {
             items.push(p_expr(t)?);
         }
-        Some(From::Derived(Box::new(inner), wh, items))
+        Some(From::Derived(Box::new(inner), wh, items, cte))
     } else {
         Some(From::Table(num_after("t", w)?))
     }
@@ -670,6 +715,34 @@ fn p_stmt(db: &[Table], ws: &[&str]) -> Option<Stmt> {
                 rows.push(r);
             }
             Stmt::Insert(tb, rows)
+        }
+        "insx" => {
+            let tb = num_after("t", t.next()?)?;
+            let l = t.next()?;
+            let cols = if l == "nolist" {
+                None
+            } else {
+                let m = num_after("l", l)?;
+                let mut cs = Vec::new();
+                for _ in 0..m {
+                    cs.push(num_after("c", t.next()?)?);
+                }
+                Some(cs)
+            };
+            let n = num_after("r", t.next()?)?;
+            let w = num_after("v", t.next()?)?;
+            if w == 0 {
+                return None;
+            }
+            let mut rows = Vec::new();
+            for _ in 0..n {
+                let mut r = Vec::new();
+                for _ in 0..w {
+                    r.push(p_expr(&mut t)?);
+                }
+                rows.push(r);
+            }
+            Stmt::InsertX(tb, cols, rows)
         }
         "upd" => {
             let tb = num_after("t", t.next()?)?;
@@ -772,8 +845,9 @@ pub fn sql_expr(e: &E, min: u8, col: &dyn Fn(usize) -> String) -> String {
             "{} {}BETWEEN {} AND {}",
             sql_expr(a, 5, col),
             if *neg { "NOT " } else { "" },
-            sql_expr(lo, 5, col),
-            sql_expr(hi, 5, col)
+            // minimal parentheses: a bound is read with binding power 4, it may be a comparison
+            sql_expr(lo, if matches!(**lo, E::Cmp(..)) { 4 } else { 5 }, col),
+            sql_expr(hi, if matches!(**hi, E::Cmp(..)) { 4 } else { 5 }, col)
         ),
         E::InList(neg, a, xs) => format!(
             "{} {}IN ({})",
@@ -838,7 +912,7 @@ pub fn leaves(f: &From, db: &[Table], out: &mut Vec<(usize, usize)>, width: &mut
             leaves(l, db, out, width);
             leaves(r, db, out, width);
         }
-        From::Derived(_, _, items) => {
+        From::Derived(_, _, items, _) => {
             out.push((DERIVED_LEAF, *width));
             *width += items.len();
         }
@@ -898,9 +972,37 @@ pub fn from_tys(f: &From, db: &[Table]) -> Vec<Ty> {
             tys.extend(from_tys(r, db));
             tys
         }
-        From::Derived(inner, _, items) => {
+        From::Derived(inner, _, items, _) => {
             let tys = from_tys(inner, db);
             items.iter().map(|e| expr_ty(e, &tys).unwrap_or(Ty::Bool)).collect()
+        }
+    }
+}
+
+/// every base table a FROM tree reads (at any depth)
+pub fn all_tables(f: &From, out: &mut Vec<usize>) {
+    match f {
+        From::Table(t) => out.push(*t),
+        From::Join(_, l, r, _) => {
+            all_tables(l, out);
+            all_tables(r, out)
+        }
+        From::Derived(inner, ..) => all_tables(inner, out),
+    }
+}
+
+fn unshadow(f: &mut From, used: &[usize]) {
+    match f {
+        From::Table(_) => {}
+        From::Join(_, l, r, _) => {
+            unshadow(l, used);
+            unshadow(r, used)
+        }
+        From::Derived(inner, _, _, cte) => {
+            if matches!(cte, Cte::Shadow(j) if used.contains(j)) {
+                *cte = Cte::Named;
+            }
+            unshadow(inner, used)
         }
     }
 }
@@ -919,7 +1021,19 @@ pub fn has_derived_where(f: &From) -> bool {
     match f {
         From::Table(_) => false,
         From::Join(_, l, r, _) => has_derived_where(l) || has_derived_where(r),
-        From::Derived(inner, w, _) => w.is_some() || has_derived_where(inner),
+        From::Derived(inner, w, ..) => w.is_some() || has_derived_where(inner),
+    }
+}
+
+/// The alias of the k-th operand of FROM.  Identifiers may hold non-ASCII letters, underscores, digits and both cases
+/// (and are case sensitive): the aliases go through these forms.
+pub fn alias(k: usize) -> String {
+    match k % 5 {
+        0 => format!("r{}", k),
+        1 => format!("Ré{}", k),
+        2 => format!("_r{}", k),
+        3 => format!("r_é{}x", k),
+        _ => format!("R{}", k),
     }
 }
 
@@ -931,42 +1045,69 @@ pub fn col_namer(f: &From, db: &[Table]) -> impl Fn(usize) -> String + 'static {
     move |i: usize| -> String {
         for (k, (_, start)) in ls.iter().enumerate().rev() {
             if i >= *start {
-                return format!("r{}.c{}", k, i - start);
+                return format!("{}.c{}", alias(k), i - start);
             }
         }
-        format!("r0.c{}", i)
+        format!("{}.c{}", alias(0), i)
     }
 }
 
 /// `(SELECT e0 AS c0, … FROM inner [WHERE w]) AS r<k>`; the inner query has its own scope (aliases r0, r1, … again)
 pub fn sql_derived(inner: &From, w: &Option<E>, items: &[E], k: usize, db: &[Table]) -> String {
+    format!("({}) AS {}", sql_derived_body(inner, w, items, db), alias(k))
+}
+
+/// `SELECT e0 AS c0, … FROM inner [WHERE w]`; the query has its own scope (aliases r0, r1, … again)
+pub fn sql_derived_body(inner: &From, w: &Option<E>, items: &[E], db: &[Table]) -> String {
     let col = col_namer(inner, db);
     let mut next = 0;
     let list: Vec<String> = items.iter().enumerate().map(|(i, e)| format!("{} AS c{}", sql_expr(e, 1, &col), i)).collect();
-    let mut s = format!("(SELECT {} FROM {}", list.join(", "), sql_from(inner, db, &mut next, &col));
+    let mut s = format!("SELECT {} FROM {}", list.join(", "), sql_from(inner, db, &mut next, &col, None));
     if let Some(w) = w {
         s += &format!(" WHERE {}", sql_expr(w, 1, &col));
     }
-    s + &format!(") AS r{}", k)
+    s
 }
 
-fn sql_from(f: &From, db: &[Table], next: &mut usize, col: &dyn Fn(usize) -> String) -> String {
+/// the common table expressions of a statement: (name, body)
+pub type Ctes = Vec<(String, String)>;
+
+/// `ctes`: where the common table expressions of the statement are collected (`None` inside a derived table: there a
+/// CTE is written in place).  Two CTEs with the same text are one CTE used twice.
+fn sql_from(f: &From, db: &[Table], next: &mut usize, col: &dyn Fn(usize) -> String, mut ctes: Option<&mut Ctes>) -> String {
     match f {
         From::Table(t) => {
-            let s = format!("t{} AS r{}", t, *next);
+            let s = format!("t{} AS {}", t, alias(*next));
             *next += 1;
             s
         }
-        From::Derived(inner, w, items) => {
-            let s = sql_derived(inner, w, items, *next, db);
+        From::Derived(inner, w, items, cte) => {
+            let s = match (cte, ctes.as_deref_mut()) {
+                (Cte::No, _) | (_, None) => sql_derived(inner, w, items, *next, db),
+                (c, Some(list)) => {
+                    let body = sql_derived_body(inner, w, items, db);
+                    let name = match list.iter().find(|(_, b)| *b == body) {
+                        Some((n, _)) => n.clone(),
+                        None => {
+                            let n = match c {
+                                Cte::Shadow(j) if !list.iter().any(|(n, _)| *n == format!("t{}", j)) => format!("t{}", j),
+                                _ => format!("w{}", list.len()),
+                            };
+                            list.push((n.clone(), body));
+                            n
+                        }
+                    };
+                    format!("{} AS {}", name, alias(*next))
+                }
+            };
             *next += 1;
             s
         }
         From::Join(k, l, r, on) => {
-            let ls = sql_from(l, db, next, col);
+            let ls = sql_from(l, db, next, col, ctes.as_deref_mut());
             // a join on the right-hand side would need parentheses the grammar does not have: the generator only
             // builds left-deep trees; a right-nested tree is printed flat (and then means something else)
-            let rs = sql_from(r, db, next, col);
+            let rs = sql_from(r, db, next, col, ctes.as_deref_mut());
             let kw = match *k {
                 "inner" => "INNER JOIN",
                 "left" => "LEFT JOIN",
@@ -979,6 +1120,16 @@ fn sql_from(f: &From, db: &[Table], next: &mut usize, col: &dyn Fn(usize) -> Str
                 None => format!("{} {} {}", ls, kw, rs),
             }
         }
+    }
+}
+
+/// ` WHERE `, in a third of the statements (chosen by the text so far) after a comment that runs to the end of its line:
+/// a lexer that does not end the comment there loses the rest of the statement
+fn where_kw(sql_so_far: &str) -> &'static str {
+    match sql_so_far.len() % 6 {
+        0 => " -- only the rows that qualify\n WHERE ",
+        1 => " --\n WHERE ",
+        _ => " WHERE ",
     }
 }
 
@@ -1040,14 +1191,16 @@ pub fn sql_stmt(s: &Stmt, db: &[Table]) -> String {
                 }
             };
             let mut next = 0;
-            let mut sql = format!(
-                "SELECT {}{} FROM {}",
-                if q.distinct { "DISTINCT " } else { "" },
-                items,
-                sql_from(&q.from, db, &mut next, &col)
-            );
+            let mut ctes: Ctes = Vec::new();
+            let from_sql = sql_from(&q.from, db, &mut next, &col, Some(&mut ctes));
+            let with = if ctes.is_empty() {
+                String::new()
+            } else {
+                format!("WITH {} ", ctes.iter().map(|(n, b)| format!("{} AS ({})", n, b)).collect::<Vec<_>>().join(", "))
+            };
+            let mut sql = format!("{}SELECT {}{} FROM {}", with, if q.distinct { "DISTINCT " } else { "" }, items, from_sql);
             if let Some(wh) = &q.where_ {
-                sql += &format!(" WHERE {}", sql_expr(wh, 1, &col));
+                sql += &format!("{}{}", where_kw(&sql), sql_expr(wh, 1, &col));
             }
             if !q.group_by.is_empty() {
                 sql += &format!(
@@ -1088,12 +1241,24 @@ pub fn sql_stmt(s: &Stmt, db: &[Table]) -> String {
                 .collect();
             format!("INSERT INTO t{} VALUES {}", t, rs.join(", "))
         }
+        Stmt::InsertX(t, cols, rows) => {
+            let col = |i: usize| format!("c{}", i);
+            let rs: Vec<String> = rows
+                .iter()
+                .map(|r| format!("({})", r.iter().map(|e| sql_expr(e, 1, &col)).collect::<Vec<_>>().join(", ")))
+                .collect();
+            let list = match cols {
+                None => String::new(),
+                Some(cs) => format!(" ({})", cs.iter().map(|c| format!("c{}", c)).collect::<Vec<_>>().join(", ")),
+            };
+            format!("INSERT INTO t{}{} VALUES {}", t, list, rs.join(", "))
+        }
         Stmt::Update(t, sets, w) => {
             let col = |i: usize| format!("c{}", i);
             let ss: Vec<String> = sets.iter().map(|(c, e)| format!("c{} = {}", c, sql_expr(e, 1, &col))).collect();
             let mut sql = format!("UPDATE t{} SET {}", t, ss.join(", "));
             if let Some(w) = w {
-                sql += &format!(" WHERE {}", sql_expr(w, 1, &col));
+                sql += &format!("{}{}", where_kw(&sql), sql_expr(w, 1, &col));
             }
             sql
         }
@@ -1101,7 +1266,7 @@ pub fn sql_stmt(s: &Stmt, db: &[Table]) -> String {
             let col = |i: usize| format!("c{}", i);
             let mut sql = format!("DELETE FROM t{}", t);
             if let Some(w) = w {
-                sql += &format!(" WHERE {}", sql_expr(w, 1, &col));
+                sql += &format!("{}{}", where_kw(&sql), sql_expr(w, 1, &col));
             }
             sql
         }
@@ -2053,8 +2218,31 @@ impl<'a> Gen<'a> {
             6 => {
                 let neg = self.rng.chance(1, 2);
                 let (a, lo, t) = self.same_type_pair(tys, p, depth.min(1));
+                let bcols = self.cols_of(tys, &[Ty::Bool]);
+                let (a, lo, t) = if !bcols.is_empty() && self.rng.chance(1, 3) {
+                    (E::Col(*self.rng.pick(&bcols)), self.lit(Ty::Bool, p), "bool")
+                } else {
+                    (a, lo, t)
+                };
+                let cmp_bound = |g: &mut Self| -> E {
+                    let op = *g.rng.pick(&CMP_OPS);
+                    let a = g.int_expr(tys, p, 0);
+                    let b = g.int_expr(tys, p, 0);
+                    E::Cmp(op, Box::new(a), Box::new(b))
+                };
+                // (boolean bounds that are comparisons, written without parentheses: `x BETWEEN a AND b = c`)
+                let lo = if t == "bool" && self.rng.chance(1, 3) {
+                    self.tag("op.btw.bound-is-comparison");
+                    cmp_bound(self)
+                } else {
+                    lo
+                };
                 let hi = match t {
                     "text" => self.text_expr(tys, p),
+                    "bool" if self.rng.chance(1, 2) => {
+                        self.tag("op.btw.bound-is-comparison");
+                        cmp_bound(self)
+                    }
                     "bool" => self.lit(Ty::Bool, p),
                     "dbl" => self.dbl_operand(tys, p),
                     _ => self.int_expr(tys, p, depth.min(1)),
@@ -2151,7 +2339,27 @@ impl<'a> Gen<'a> {
             items.push(if expr_ty(&e, &tys).is_none() { E::Col(0) } else { e });
         }
         self.safe_arith = saved;
-        From::Derived(Box::new(inner), w, items)
+        // a third of them as common table expressions (only a top-level operand of FROM is written as one); now and then
+        // under the name of a table of the database that the statement does not read
+        let used = {
+            let mut ls = Vec::new();
+            let mut wd = 0;
+            leaves(&inner, db, &mut ls, &mut wd);
+            ls
+        };
+        let cte = if self.rng.chance(1, 3) {
+            let free: Vec<usize> = (0..db.len()).filter(|j| !used.iter().any(|(t, _)| t == j)).collect();
+            if !free.is_empty() && self.rng.chance(1, 3) {
+                self.tag("from.cte.shadows-table");
+                Cte::Shadow(*self.rng.pick(&free))
+            } else {
+                self.tag("from.cte");
+                Cte::Named
+            }
+        } else {
+            Cte::No
+        };
+        From::Derived(Box::new(inner), w, items, cte)
     }
 
     /// one operand of FROM: a table, now and then wrapped in a derived table
@@ -2163,7 +2371,12 @@ impl<'a> Gen<'a> {
     fn from(&mut self, db: &[Table], p: Profile, max_tables: usize) -> From {
         let f = self.from_tree(db, p, max_tables);
         // the whole FROM as a derived table (over a join, or a derived table of a derived table)
-        if self.rng.chance(1, 12) { self.derived_over(f, db, p) } else { f }
+        let mut f = if self.rng.chance(1, 12) { self.derived_over(f, db, p) } else { f };
+        // a CTE may take the name of a table only if the statement reads that table nowhere
+        let mut used = Vec::new();
+        all_tables(&f, &mut used);
+        unshadow(&mut f, &used);
+        f
     }
 
     fn from_tree(&mut self, db: &[Table], p: Profile, max_tables: usize) -> From {
@@ -2213,7 +2426,14 @@ impl<'a> Gen<'a> {
             f = self.derived_over(f, db, p);
         }
         for _ in 1..n {
-            let right = self.leaf(db, p);
+            let right = match &f {
+                // the same CTE a second time
+                From::Derived(.., Cte::Named | Cte::Shadow(_)) if self.rng.chance(1, 2) => {
+                    self.tag("from.cte.used-twice");
+                    f.clone()
+                }
+                _ => self.leaf(db, p),
+            };
             let kind = *self.rng.pick(&["inner", "inner", "left", "right", "full", "cross"]);
             self.tag(&format!("join.{}", kind));
             let ltys = from_tys(&f, db);
@@ -2537,6 +2757,68 @@ impl<'a> Gen<'a> {
         q
     }
 
+    /// INSERT with a column list: a random permutation of a random non-empty subset of the columns (the others become
+    /// NULL), one or more rows.  One in three is ill-formed — too few or too many values, a column named twice, a column
+    /// the table does not have — and must be rejected (class `bind`) with the table unchanged.
+    fn insert_with_list(&mut self, t: usize, tys: &[Ty], p: Profile, n: usize) -> Stmt {
+        let mut cols: Vec<usize> = (0..tys.len()).collect();
+        self.rng.shuffle(&mut cols);
+        let k = 1 + self.rng.below(tys.len() as u64) as usize;
+        cols.truncate(k);
+        self.tag("dml.insert.column-list");
+        if k < tys.len() {
+            self.tag("dml.insert.column-list.subset");
+        }
+        if cols.windows(2).any(|w| w[0] > w[1]) {
+            self.tag("dml.insert.column-list.permuted");
+        }
+        let mut width = cols.len();
+        let mut list = Some(cols.clone());
+        if self.rng.chance(1, 3) {
+            match self.rng.below(6) {
+                0 | 5 if width > 1 => {
+                    self.tag("dml.insert.ill-formed.too-few-values");
+                    width -= 1;
+                }
+                1 => {
+                    self.tag("dml.insert.ill-formed.too-many-values");
+                    width += 1;
+                }
+                2 => {
+                    self.tag("dml.insert.ill-formed.duplicate-column");
+                    let c = cols[self.rng.below(cols.len() as u64) as usize];
+                    cols.push(c);
+                    width = cols.len();
+                    list = Some(cols.clone());
+                }
+                3 => {
+                    self.tag("dml.insert.ill-formed.unknown-column");
+                    cols.push(tys.len() + self.rng.below(3) as usize);
+                    width = cols.len();
+                    list = Some(cols.clone());
+                }
+                _ => {
+                    // no list, wrong number of values
+                    self.tag("dml.insert.ill-formed.no-list-arity");
+                    list = None;
+                    cols = (0..tys.len()).collect();
+                    width = if tys.len() > 1 && self.rng.chance(1, 2) { tys.len() - 1 } else { tys.len() + 1 };
+                }
+            }
+        }
+        let rows: Vec<Vec<E>> = (0..n)
+            .map(|_| {
+                (0..width)
+                    .map(|i| {
+                        let c = cols.get(i).copied().filter(|c| *c < tys.len()).unwrap_or(0);
+                        E::Lit(self.val(tys[c], p, c > 0))
+                    })
+                    .collect()
+            })
+            .collect();
+        Stmt::InsertX(t, list, rows)
+    }
+
     fn dml(&mut self, db: &[Table], p: Profile) -> Vec<Stmt> {
         self.pristine = false;
         let t = self.rng.below(db.len() as u64) as usize;
@@ -2549,10 +2831,14 @@ impl<'a> Gen<'a> {
             0 => {
                 self.tag("dml.insert");
                 let n = self.rng.range(1, 3) as usize;
-                let rows: Vec<Vec<E>> = (0..n)
-                    .map(|_| (0..tys.len()).map(|c| E::Lit(self.val(tys[c], p, c > 0))).collect())
-                    .collect();
-                Stmt::Insert(t, rows)
+                if self.rng.chance(1, 2) {
+                    self.insert_with_list(t, &tys, p, n)
+                } else {
+                    let rows: Vec<Vec<E>> = (0..n)
+                        .map(|_| (0..tys.len()).map(|c| E::Lit(self.val(tys[c], p, c > 0))).collect())
+                        .collect();
+                    Stmt::Insert(t, rows)
+                }
             }
             1 => {
                 self.tag("dml.update");
@@ -2783,7 +3069,8 @@ impl Engine for SqlEngine {
                     return "-".to_string();
                 }
                 let o = run_stmt(db, &tables, s);
-                if !matches!(s, Stmt::Select(_)) && o.starts_with('E') {
+                // (a statement the parser or the binder rejects was never executed: the comparison goes on)
+                if !matches!(s, Stmt::Select(_)) && o.starts_with('E') && o != "Ebind" && o != "Eparse" {
                     failed_dml = true;
                 }
                 if let Some(p) = take_worker_panic() {
